@@ -315,13 +315,13 @@ fn gen_step(f: usize, pool: &mut Pool, cfg: &GenCfg, rng: &mut Rng, graphs: &[Gr
                 }
                 4 => {
                     let same: Vec<usize> = pool.arrays_where(|t| *t == ta);
-                    let k = 1 + rng.usize_below(3);
+                    let k = 1 + rng.usize_below(5);
                     let deps: Vec<usize> = (0..k).map(|_| *rng.pick(&same)).collect();
                     pool.try_add(Operation::Stack(vec![k as u64]), deps, vec![], graphs).is_some()
                 }
                 _ => {
                     let same: Vec<usize> = pool.arrays_where(|t| t.get_scalar_type() == st && shape_of(t).len() == sa.len());
-                    let k = 2 + rng.usize_below(2);
+                    let k = 2 + rng.usize_below(4);
                     let deps: Vec<usize> = (0..k).map(|i| if i == 0 { a } else { *rng.pick(&same) }).collect();
                     let ax = rng.below(sa.len() as u64);
                     pool.try_add(Operation::Concatenate(ax), deps.clone(), vec![], graphs).is_some()
@@ -360,12 +360,12 @@ fn gen_step(f: usize, pool: &mut Pool, cfg: &GenCfg, rng: &mut Rng, graphs: &[Gr
             let all: Vec<usize> = (0..pool.types.len()).collect();
             match rng.below(9) {
                 0 => {
-                    let k = 1 + rng.usize_below(3);
+                    let k = 1 + rng.usize_below(5);
                     let deps: Vec<usize> = (0..k).map(|_| *rng.pick(&all)).collect();
                     pool.try_add(Operation::CreateTuple, deps, vec![], graphs).is_some()
                 }
                 1 => {
-                    let k = 1 + rng.usize_below(3);
+                    let k = 1 + rng.usize_below(5);
                     let deps: Vec<usize> = (0..k).map(|_| *rng.pick(&all)).collect();
                     let names: Vec<String> = (0..k).map(|i| format!("f{}", i)).collect();
                     pool.try_add(Operation::CreateNamedTuple(names), deps, vec![], graphs).is_some()
@@ -374,7 +374,7 @@ fn gen_step(f: usize, pool: &mut Pool, cfg: &GenCfg, rng: &mut Rng, graphs: &[Gr
                     let a = *rng.pick(&all);
                     let t = pool.types[a].clone();
                     let same: Vec<usize> = all.iter().cloned().filter(|i| pool.types[*i] == t).collect();
-                    let k = 1 + rng.usize_below(3);
+                    let k = 1 + rng.usize_below(5);
                     let deps: Vec<usize> = (0..k).map(|_| *rng.pick(&same)).collect();
                     pool.try_add(Operation::CreateVector(t), deps, vec![], graphs).is_some()
                 }
@@ -716,7 +716,49 @@ pub fn protocol_case(rng: &mut Rng) -> Option<Case> {
     let inp = |t: &Type| Step { op: Operation::Input(t.clone()), deps: vec![], gdeps: vec![] };
     let st_of = |op: Operation, deps: Vec<usize>| Step { op, deps, gdeps: vec![] };
     let mut steps: Vec<Step>;
-    match rng.below(9) {
+    let kind = match rng.below(14) {
+        12 | 13 => 9,
+        k => k,
+    };
+    if kind == 9 {
+        // associative, NON-commutative iteration (running product of 2x2 matrices) over >= 16 elements with
+        // per-step outputs: depth-optimised inlining uses the prefix-sum data structures
+        let st2 = *rng.pick(&[UINT8, INT16, UINT32, INT64]);
+        let mt = array_type(vec![2, 2], st2);
+        let n_it = if rng.chance(1, 5) { 1 + rng.below(15) } else { 16 + rng.below(9) };
+        let body = GraphD {
+            steps: vec![inp(&mt), inp(&mt), st_of(Operation::Matmul, vec![0, 1]), st_of(Operation::CreateTuple, vec![2, 2])],
+            output: 3,
+            annotations: vec![GraphAnnotation::AssociativeOperation],
+            ..Default::default()
+        };
+        let vt = ciphercore_base::data_types::vector_type(n_it, mt.clone());
+        let mut msteps = vec![inp(&mt), inp(&vt), Step { op: Operation::Iterate, deps: vec![0, 1], gdeps: vec![0] }];
+        let out = match rng.below(5) {
+            0 => {
+                msteps.push(st_of(Operation::TupleGet(0), vec![2]));
+                3
+            }
+            1 => {
+                msteps.push(st_of(Operation::TupleGet(1), vec![2]));
+                msteps.push(st_of(Operation::Constant(scalar_type(UINT64), enc(&[rng.below(n_it) as u128], UINT64)), vec![]));
+                msteps.push(st_of(Operation::VectorGet, vec![3, 4]));
+                5
+            }
+            _ => 2,
+        };
+        let prog = Prog { graphs: vec![body, GraphD { steps: msteps, output: out, ..Default::default() }] };
+        prog.build().ok()?;
+        let its = prog.input_types();
+        let owners = gen_owners(its.len(), rng);
+        let outputs = gen_outputs(rng);
+        let inline = if rng.chance(2, 3) { Inline::DepthDefault } else { gen_inline(rng) };
+        // small entries keep the products informative (non-commuting matrices)
+        let small = |t: &Type, rng: &mut Rng| -> Value { crate::vals::map_leaves(t, &mut |lt| enc(&(0..num_elems(lt)).map(|_| rng.below(3) as u128).collect::<Vec<_>>(), lt.get_scalar_type())) };
+        let inputs: Vec<Value> = its.iter().map(|t| small(t, rng)).collect();
+        return Some(Case { prog, owners, outputs, inline, inputs });
+    }
+    match kind {
         0 => {
             // A2B -> B2A round trip, then arithmetic with a second input
             steps = vec![inp(&t), inp(&t), st_of(Operation::A2B, vec![0]), st_of(Operation::B2A(st), vec![2]), st_of(if rng.chance(1, 2) { Operation::Add } else { Operation::Multiply }, vec![3, 1])];
@@ -785,6 +827,28 @@ pub fn protocol_case(rng: &mut Rng) -> Option<Case> {
                 steps.push(st_of(Operation::Multiply, vec![k, k]));
             }
         }
+        10 => {
+            // constants with identical contents but different shapes, consumed through broadcasting
+            let t22 = array_type(vec![2, 2], st);
+            let c_row = Operation::Constant(array_type(vec![2], st), enc(&[1, 2], st));
+            let c_col = Operation::Constant(array_type(vec![2, 1], st), enc(&[1, 2], st));
+            steps = vec![inp(&t22), inp(&t22), st_of(c_row, vec![]), st_of(c_col, vec![]), st_of(Operation::Add, vec![0, 2]), st_of(Operation::Add, vec![1, 3]), st_of(Operation::CreateTuple, vec![4, 5])];
+            if rng.chance(1, 2) {
+                steps.push(st_of(Operation::Multiply, vec![4, 5]));
+            }
+        }
+        11 => {
+            // many operands of mixed privacy: public operands at positions >= 3
+            let k = 4 + rng.usize_below(3);
+            steps = (0..k).map(|_| inp(&t)).collect();
+            let deps: Vec<usize> = (0..k).collect();
+            steps.push(match rng.below(4) {
+                0 => st_of(Operation::Stack(vec![k as u64]), deps),
+                1 => st_of(Operation::Concatenate(0), deps),
+                2 => st_of(Operation::CreateTuple, deps),
+                _ => st_of(Operation::CreateVector(t.clone()), deps),
+            });
+        }
         _ => {
             // tuple / vector plumbing around a product
             steps = vec![inp(&t), inp(&t), st_of(Operation::Multiply, vec![0, 1]), st_of(Operation::CreateTuple, vec![2, 0]), st_of(Operation::TupleGet(0), vec![3]), st_of(Operation::Add, vec![4, 1])];
@@ -794,7 +858,12 @@ pub fn protocol_case(rng: &mut Rng) -> Option<Case> {
     let prog = Prog { graphs: vec![GraphD { steps, output, ..Default::default() }] };
     prog.build().ok()?;
     let its = prog.input_types();
-    let owners = gen_owners(its.len(), rng);
+    let mut owners = gen_owners(its.len(), rng);
+    if kind == 11 {
+        for (i, o) in owners.iter_mut().enumerate() {
+            *o = if i < 1 + rng.usize_below(2) { Owner::Party(rng.below(3) as u8) } else if rng.chance(2, 3) { Owner::Public } else { *o };
+        }
+    }
     let outputs = gen_outputs(rng);
     let inline = gen_inline(rng);
     let inputs = gen_inputs(&its, rng);
